@@ -392,7 +392,19 @@ func cmdCheck(args []string) {
 	wall := time.Since(t0).Seconds()
 	var assumedList []string
 	for k := range assumed {
+		switch {
+		case strings.HasPrefix(k, "axiom "):
+			k = "assumed axiom (contracts/external.spec or a contract file): " + k[6:]
+		case strings.HasPrefix(k, "go:"):
+			k = "assumed language semantics: " + k[3:]
+		case strings.HasPrefix(k, "rename tolerated"):
+		case strings.Contains(k, "::"):
+			k = "assumed (trusted) contract, body not verified: " + k
+		}
 		assumedList = append(assumedList, k)
+	}
+	for i, a := range explicitAssumes {
+		explicitAssumes[i] = "explicit `assume` in a contract (not proved): " + a
 	}
 	sort.Strings(assumedList)
 	var unknownList []string
@@ -540,7 +552,20 @@ func runStandins(prop, tier, repo, verifDir string) []standinResult {
 	return out
 }
 
-func propAssumptions(prop string) []string { return nil }
+// propAssumptions: the standing scope/assumption note of the property's claim (tools/claims.json).
+func propAssumptions(prop string) []string {
+	b, err := os.ReadFile("/verif/tools/claims.json")
+	if err != nil {
+		return nil
+	}
+	var m map[string]map[string]string
+	if json.Unmarshal(b, &m) != nil || m[prop] == nil || m[prop]["note"] == "" {
+		return nil
+	}
+	return []string{"scope and standing assumptions of this claim: " + m[prop]["note"],
+		"machine integers are mathematical integers with an explicit no-overflow obligation at every arithmetic instruction; lengths, declared heights and measured widths are assumed below 2^40",
+		"induction over build histories (every public operation preserves the invariant, hence every reachable table satisfies it) is a paper step"}
+}
 
 func tryReplay(w *World, r *SolveResult, verifDir, tmp string, content map[string]interface{}) bool {
 	return false
